@@ -439,18 +439,10 @@ def filter_dead_code_nodes(graph: G, entry_node: ProgramNode) -> G:
     Returns:
         The graph without the pruned dead nodes
     """
-    has_changed = True
-    while has_changed:
-        # Do this until we have reached a fixed point, i.e., removed all dead
-        # nodes from the graph.
-        has_changed = False
-        for node in graph.nodes:
-            if node != entry_node and not graph.get_predecessors(node):
-                # The only node in the graph that is allowed to have no predecessor
-                # is the entry node. All other nodes without predecessors are considered
-                # dead code and thus removed.
-                graph.graph.remove_node(node)
-                has_changed = True
+    # Everything that cannot be reached from the entry node is dead code. Checking for
+    # missing predecessors only is not sufficient: a loop in dead code keeps itself alive.
+    reachable = nx.descendants(graph.graph, entry_node) | {entry_node}
+    graph.graph.remove_nodes_from(tuple(node for node in graph.graph.nodes if node not in reachable))
     return graph
 
 
@@ -640,6 +632,9 @@ class CFG(ProgramGraph):
         assert entry_node is not None, (
             f"Control flow must have an entry node. Offending CFG: {cfg.dot}"
         )
+
+        # Dead code must not contribute exit or infinite-loop nodes.
+        filter_dead_code_nodes(cfg, entry_node)
 
         distances_to_entry_point: dict[ProgramNode, int] = nx.single_source_shortest_path_length(
             cfg.graph,
